@@ -625,12 +625,10 @@ pub fn check(ctx: &CheckCtx) -> Option<Found> {
         return Some(f);
     }
     let t = ctx.tier;
-    // (the ship-profile child leaves the schedule searches to its parent: the yield hooks behave the same in both builds)
     let child = crate::ship::is_child();
-    if !child {
-        if let Some(f) = ctx.search("sched", case_strategy(), t.pick(20_000, 300_000), 6, None, run_case) {
-            return Some(f);
-        }
+    // (the ship-profile child runs a short schedule search only)
+    if let Some(f) = ctx.search("sched", case_strategy(), if child { 800 } else { t.pick(20_000, 300_000) }, 6, None, run_case) {
+        return Some(f);
     }
     if let Some(f) = ctx.search("free", free_strategy(), if child { 300 } else { t.pick(2_000, 120_000) }, 4, None, run_free) {
         return Some(f);
